@@ -43,6 +43,19 @@ def build_conc(bdir):
     return link(os.path.join(bdir, "chan_conc"), objs, wraps(PLATFORM_WRAPS))
 
 
+def build_rt(bdir):
+    """The same harness on REAL pthreads with the real platform.c (no deterministic scheduler): exercises platform.c's
+    lock / condition-variable / thread wrappers, which vsched replaces."""
+    os.makedirs(bdir, exist_ok=True)
+    objs = compile_objs(bdir, [
+        "acquire-video-runtime/src/runtime/channel.c",
+        "acquire-core-libs/src/acquire-core-platform/linux/platform.c",
+        "acquire-core-libs/src/acquire-core-logger/logger.c",
+        os.path.join(HARNESS, "channel/chan_conc.c"),
+        os.path.join(HARNESS, "vsched/rt_sched.c")], extra_inc=[os.path.join(HARNESS, "vsched")], defs=["RT_MODE"])
+    return link(os.path.join(bdir, "chan_rt"), objs, wraps(["lock_release", "condition_variable_wait"]))
+
+
 def conc_cfg(path, cap, nr, mw, nwrites, ntoggles, locked=True, full=False, stall=False, spec="CSpec", invs=(), props=(), extra=""):
     t = "CONSTANTS Cap = %d MaxReaders = %d MaxWrite = %d WithAccept = TRUE FIXED = 1 SampleMod = 1\n" % (cap, nr, mw)
     t += "CONSTANTS NWrites = %d NToggles = %d LockedAccept = %s FullReaders = %s MayStall = %s\n" % (
@@ -380,6 +393,30 @@ def main(prop, tier):
     widx = concat(wtraces, wall)
     v2 = judge(chk, wall, widx, wcfgs, bdir, "replayed ChannelConc behaviour")
     events += v2["consumed"]
+    # ---- real threads, real platform.c ---------------------------------------------------------------------------------
+    rt_exe = build_rt(os.path.join(bdir, "rt"))
+    rt_cfgs, rt_traces = [], []
+    for i in range(600 if thorough else 160):
+        out = os.path.join(bdir, "rt_%d.ndjson" % i)
+        p = os.path.join(bdir, "rt_%d.cfg" % i)
+        open(p, "w").write(random_config(rng, i, out))
+        rt_cfgs.append(p)
+        rt_traces.append(out)
+    res = run_many(rt_exe, rt_cfgs, timeout=120)
+    brk = [(c, rc, o) for c, (rc, o) in zip(rt_cfgs, res) if rc != 0]
+    if brk:
+        raise Broken("chan_rt exited abnormally (rc=%s) on %s: %s" % (brk[0][1], brk[0][0], brk[0][2][-500:]))
+    rtall = os.path.join(bdir, "rt_all.ndjson")
+    rtidx = concat(rt_traces, rtall)
+    v4 = judge(chk, rtall, rtidx, rt_cfgs, bdir, "real-thread (platform.c)")
+    events += v4["consumed"]
+    chk.set("real_thread_runs", len(rtidx))
+    for f in rt_traces + rt_cfgs:
+        try:
+            os.remove(f)
+        except OSError:
+            pass
+
     # ---- sequential exploration judged with C03's rules (drain bound, blocked-while-drained on every transition) ----
     seq_exe = seq.build_seq(os.path.join(bdir, "seq"))
     seq_traces = []
